@@ -3,5 +3,5 @@
 H=$1; T=${2:-300}; shift; shift
 cd /verif && python3 -c "
 from vlib import kani; import os
-kani.assemble(os.path.join(kani.CACHE,'harness_all.rs'))"
-cd /repo && PRIO_VERIF_HARNESS=/verif/.cache/harness_all.rs CARGO_NET_OFFLINE=true timeout $((T+120)) cargo kani --manifest-path /repo/Cargo.toml --target-dir /verif/.cache/kani/dbg -Z stubbing -Z unstable-options --harness-timeout ${T}s --features experimental,test-util,prio_verif --harness "verif_harness::$H" --exact --output-format terse "$@" 2>&1 | grep -v "^warning\|^ *|\|^ *=\|^$\|^ *-->\|^ *[0-9]* |" | tail -40
+kani.assemble(os.path.join(kani.CACHE,'hdir'))"
+cd /repo && PRIO_VERIF_DIR=/verif/.cache/hdir CARGO_NET_OFFLINE=true timeout $((T+120)) cargo kani --manifest-path /repo/Cargo.toml --target-dir /verif/.cache/kani/dbg -Z stubbing -Z unstable-options --harness-timeout ${T}s --features experimental,test-util,prio_verif --harness "verif_harness::$H" --exact --output-format terse "$@" 2>&1 | grep -v "^warning\|^ *|\|^ *=\|^$\|^ *-->\|^ *[0-9]* |" | tail -40
